@@ -117,6 +117,8 @@ Theorem C14_from_partial_onb_full : forall d, (0 < d)%nat -> forall A N, A <> []
   hs_orthonormal d (length (A ++ N)) (fun i => toF (nth i (fp_basis_raw RO d false A N) [])).
 Proof. exact from_partial_onb_full. Qed.
 Print Assumptions C14_from_partial_onb_full.
+Example C14_from_partial_hypothesis_sat : rows_orthonormal (2 * 2) (Wf (exA ++ exN)) (length (exA ++ exN)).
+Proof. exact rows_orthonormal_sat. Qed.
 Theorem C14_from_partial_onb_traceless : forall d, (0 < d)%nat -> forall A N, A <> [] ->
   rows_orthonormal (d * d - 1) (Wf (A ++ N)) (length (A ++ N)) ->
   hs_orthonormal d (S (length (A ++ N))) (fun i => toF (nth i (fp_basis_raw RO d true A N) [])).
